@@ -282,8 +282,16 @@ def r14_k(run, fx):
                         continue
                     xs, ys = sym.strip(x), sym.strip(y)
                     def is_end(t):
-                        return (t[0] == "field" and t[1][0] == "variant" and t[1][2] == "Some" and t[1][1][0] == "call"
-                                and t[1][1][1].endswith("::checked_add") and t[1][1][3] == ev_add[2])
+                        # the success payload of that checked_add, directly (`Some(e)`) or through `.ok_or(..)?`
+                        t = sym.strip(t)
+                        for _ in range(6):
+                            if t[0] == "field" and t[1][0] == "variant" and t[1][2] in ("Some", "Ok", "Continue"):
+                                t = sym.strip(t[1][1])
+                            elif t[0] == "call" and (t[4] or t[1] or "").endswith(guards.SUCCESS_PRESERVING) and t[2]:
+                                t = sym.strip(t[2][0])
+                            else:
+                                break
+                        return t[0] == "call" and t[1].endswith("::checked_add") and t[3] == ev_add[2]
                     def is_len(t):
                         t = sym.strip(t)
                         return t[0] == "call" and t[1].endswith("::len") and "scope.data" in sym.show(t)
@@ -327,8 +335,10 @@ def r14_k(run, fx):
                 if sub[0] == "call" and sub[1].endswith("::index") and len(sub[2]) == 2:
                     rng = sym.strip(sub[2][1])
                     rest = sym.strip(sub[2][0])
-                    if rng[0] == "agg" and rng[1].endswith("Range") and rng[3][0][0] == "c" and rng[3][0][1] == 0 and sym.strip(rng[3][1])[0] == "arg":
-                        length_arg = sym.strip(rng[3][1])
+                    is_0_len = rng[0] == "agg" and str(rng[1]).endswith("ops::Range") and len(rng[3]) == 2 and rng[3][0][0] == "c" and rng[3][0][1] == 0 and sym.strip(rng[3][1])[0] == "arg"
+                    is_to_len = rng[0] == "agg" and str(rng[1]).endswith("ops::RangeTo") and len(rng[3]) == 1 and sym.strip(rng[3][0])[0] == "arg"
+                    if is_0_len or is_to_len:
+                        length_arg = sym.strip(rng[3][-1])
                         rs = sym.show(rest)
                         if "::get(" in rs and "unwrap_or" in rs and "RangeFrom" in rs:
                             # guard: length <= rest.len()
